@@ -3,9 +3,9 @@ import GateModel.C13.Lemmas
 set_option linter.unusedSimpArgs false
 namespace Gate.C13
 
-def keys (m : List (Id × Consumer)) : List Id := m.map (·.1)
+def keys (m : List (Int × Consumer)) : List Int := m.map (·.1)
 
-theorem count_keys_mapDel (m : List (Id × Consumer)) (id n : Id) :
+theorem count_keys_mapDel (m : List (Int × Consumer)) (id n : Int) :
     (keys (mapDel m id)).count n = if n = id then 0 else (keys m).count n := by
   induction m with
   | nil => simp [keys, mapDel]
@@ -24,7 +24,7 @@ theorem count_keys_mapDel (m : List (Id × Consumer)) (id n : Id) :
         simp [List.filter_cons, he, List.count_cons] at ih ⊢; simp [ih, hkn]
       · simp [List.filter_cons, he, List.count_cons, hn] at ih ⊢; simp [ih]
 
-theorem count_keys_mapPut (m : List (Id × Consumer)) (id n : Id) (c : Consumer) :
+theorem count_keys_mapPut (m : List (Int × Consumer)) (id n : Int) (c : Consumer) :
     (keys (mapPut m id c)).count n = if n = id then 1 else (keys m).count n := by
   have := count_keys_mapDel m id n
   simp only [keys, mapDel] at this
@@ -34,7 +34,7 @@ theorem count_keys_mapPut (m : List (Id × Consumer)) (id n : Id) (c : Consumer)
   · have : ¬ id = n := fun h => hn h.symm
     simp [hn, this]
 
-theorem lookup_some_count {m : List (Id × Consumer)} {id : Id} {c : Consumer} (h : m.lookup id = some c) :
+theorem lookup_some_count {m : List (Int × Consumer)} {id : Int} {c : Consumer} (h : m.lookup id = some c) :
     0 < (keys m).count id := by
   induction m with
   | nil => simp at h
@@ -49,7 +49,7 @@ theorem lookup_some_count {m : List (Id × Consumer)} {id : Id} {c : Consumer} (
       simp only [keys, List.map_cons, List.count_cons] at this ⊢
       omega
 
-theorem lookup_some_mem {m : List (Id × Consumer)} {id : Id} {c : Consumer} (h : m.lookup id = some c) :
+theorem lookup_some_mem {m : List (Int × Consumer)} {id : Int} {c : Consumer} (h : m.lookup id = some c) :
     (id, c) ∈ m := by
   induction m with
   | nil => simp at h
@@ -63,7 +63,24 @@ theorem lookup_some_mem {m : List (Id × Consumer)} {id : Id} {c : Consumer} (h 
       rw [this] at h
       simp [ih h]
 
-theorem mem_keys_of_count {m : List (Id × Consumer)} {n : Id} : 0 < (keys m).count n ↔ n ∈ keys m := by
+theorem lookup_none_not_mem {m : List (Int × Consumer)} {id : Int} (h : m.lookup id = none) : id ∉ keys m := by
+  induction m with
+  | nil => simp [keys]
+  | cons e es ih =>
+    obtain ⟨k, v⟩ := e
+    simp only [List.lookup_cons] at h
+    by_cases hk : id = k
+    · have : (id == k) = true := by simp [hk]
+      rw [this] at h; simp at h
+    · have : (id == k) = false := by simp [hk]
+      rw [this] at h
+      have := ih h
+      simp only [keys, List.map_cons, List.mem_cons] at this ⊢
+      intro hh; rcases hh with hh | hh
+      · exact hk hh
+      · exact this hh
+
+theorem mem_keys_of_count {m : List (Int × Consumer)} {n : Int} : 0 < (keys m).count n ↔ n ∈ keys m := by
   simp [List.count_pos_iff]
 
 end Gate.C13
